@@ -90,7 +90,8 @@ Inductive plabel :=
 | DialFail (k : nat)         (* session.connect returned an error *)
 | KsFail (k : nat)           (* UseKeyspace failed: conn.Close(); return err *)
 | ConnectAdd (k : nat)       (* Lock; closed ? conn.Close() : conn.Closed() ? return err : append; Unlock *)
-| ConnDie (c : nat)          (* the connection fails (read error, heartbeat): Conn.closeWithError closes it *)
+| ConnDie (c : nat)          (* the connection fails -- read error, write error, failed heartbeats, or more than
+                               TimeoutLimit request timeouts (handleTimeout) --: Conn.closeWithError(err) closes it *)
 | HErr (c : nat) (t : nat)   (* ... and then calls pool.HandleError(c, err, true): Lock; remove; go fill() as thread t *)
 | PClose                     (* pool.Close(): Lock; closed ? return : closed = true, take conns; Unlock *)
 | PCloseConn.                (* ... conn.Close() for the next connection taken *)
